@@ -1,6 +1,7 @@
 import RubyTi.Model.Frame
 import RubyTi.Model.Token
 import RubyTi.Props.C19
+import RubyTi.Model.Namespace
 
 /-!
 # C20 — declarations for classes a program never mentions do not affect it
@@ -15,6 +16,11 @@ Two mechanisms could make an unmentioned configured class matter:
    short name of an added class in another frame (`classify_collision`): an all-capital constant
    such as `HG` becomes a class token. That is the `Frame::Name` short-name collision recorded
    as a known finding.
+3. the same list consulted when a superclass frame is chosen (`class Fuga < Hoge`): after the repair
+   (F60) a class the program defines itself is found lexically first, so the frame chosen for it is the
+   same for EVERY list of configured short names (`own_superclass_ignores_config`); for a name the
+   program does not define, adding short names other than that name changes nothing
+   (`superclass_extra_names`).
 -/
 namespace RubyTi.C20
 open RubyTi RubyTi.Frame RubyTi.Token
@@ -35,5 +41,35 @@ theorem classify_collision :
   ⟨[], [[72, 71]], [72, 71], by decide⟩
 
 example : ([72, 71] : List Rune) ∉ ([[66, 97, 115, 101]] : List (List Rune)) := by decide
+
+
+open RubyTi.Namespace in
+/-- **The program's own class wins**: if the superclass name is unqualified and the program defines a class
+of that name lexically (in an enclosing namespace or at top level), the frame chosen for it does not
+depend on the configured short names at all. -/
+theorem own_superclass_ignores_config (tbl : Defined) (bc₁ bc₂ builtin ctxFrame qualified : List Str) (noNs : Bool) (cls : Str)
+    (hown : (lookupDefined tbl cls ctxFrame).2 = true) :
+    superclassFrame tbl bc₁ builtin ctxFrame true noNs qualified cls =
+    superclassFrame tbl bc₂ builtin ctxFrame true noNs qualified cls := by
+  simp [superclassFrame, hown]
+
+open RubyTi.Namespace in
+/-- for any superclass name: configured classes with OTHER short names do not change the chosen frame -/
+theorem superclass_extra_names (tbl : Defined) (bc extra builtin ctxFrame qualified : List Str) (unq noNs : Bool) (cls : Str)
+    (h : cls ∉ extra) :
+    superclassFrame tbl (bc ++ extra) builtin ctxFrame unq noNs qualified cls =
+    superclassFrame tbl bc builtin ctxFrame unq noNs qualified cls := by
+  have : (bc ++ extra).contains cls = bc.contains cls := by
+    simp [List.contains_eq_mem, List.mem_append, h]
+  unfold superclassFrame
+  rw [this]
+
+open RubyTi.Namespace in
+/-- non-vacuity: `class Fuga < Hoge` at top level with the program's own `Hoge`, with and without a configured `Gui::Hoge` -/
+example :
+    let tbl : Defined := [([], "Hoge".toList)]
+    (lookupDefined tbl "Hoge".toList []).2 = true ∧
+    superclassFrame tbl ["Hoge".toList] ["Builtin".toList] [] true true [] "Hoge".toList = [] ∧
+    superclassFrame tbl [] ["Builtin".toList] [] true true [] "Hoge".toList = [] := by decide
 
 end RubyTi.C20
